@@ -169,3 +169,56 @@ Section Top.
       exists k. rewrite <- E3. auto.
   Qed.
 End Top.
+
+(* ------------------------------------------------------------------ what CheckServiceNodes returns *)
+
+Lemma csn_of_total c p : forall l,
+  (forall y, In y l -> get_node c p (s_node y) <> None) -> exists stored, csn_of c p l = Ok stored.
+Proof.
+  induction l as [|y l IH]; intros H; cbn [csn_of]; [eexists; reflexivity|].
+  destruct (get_node c p (s_node y)) as [nd|] eqn:G; [|exfalso; apply (H y); [left; reflexivity|exact G]].
+  destruct IH as (rest & ->); [intros z Hz; apply H; right; exact Hz|]. cbn [bind]. eexists. reflexivity.
+Qed.
+
+(* Store.CheckServiceNodes(sn, p) on a store that mirrors the snapshot returns the snapshot:
+   the same instances, each with the received node record, the received service record and
+   exactly the received checks (up to the ServiceName / ServiceTags copies) *)
+Theorem mirrors_view c p sn snap :
+  mirrors c p sn snap -> snap_coh p sn snap ->
+  exists view, check_service_nodes c p sn = Ok view /\
+    (forall j, In j view -> exists i, In i snap /\ i_node j = i_node i /\ i_svc j = i_svc i /\
+                                      (forall r, In r (i_chks j) -> exists k, In k (i_chks i) /\ img_chk k r) /\
+                                      (forall k, In k (i_chks i) -> exists r, In r (i_chks j) /\ img_chk k r)) /\
+    (forall i, In i snap -> exists j, In j view /\ i_svc j = i_svc i).
+Proof.
+  intros [W Min Ms Mc] C.
+  assert (Hnode : forall i, In i snap -> get_node c p (s_node (i_svc i)) = Some (i_node i)).
+  { intros i Hi. destruct (Min i Hi) as (Hn & _). destruct (sc_peer _ _ _ C i Hi) as (Np & _ & Sn & _).
+    rewrite Sn, <- Np. apply in_get_node; assumption. }
+  destruct (csn_of_total c p (filter (fun s => seqb (s_peer s) p && seqb (s_name s) sn) (svcs c))) as (view & Hv).
+  { intros y Hy. apply filter_In in Hy as [Hy E]. apply andb_true_iff in E as [E1 E2]. apply seqb_eq in E1, E2.
+    destruct (Ms y Hy E1 E2) as (i & Hi & <-). rewrite (Hnode i Hi). discriminate. }
+  exists view. split; [exact Hv|]. split.
+  - intros j Hj. destruct (stored_all_ok c p sn view Hv j Hj) as [A B N (D1 & D2 & D3) K].
+    destruct (Ms (i_svc j) A B N) as (i & Hi & E). exists i. split; [exact Hi|].
+    destruct (Min i Hi) as (Hn & Hs & Hk). destruct (sc_peer _ _ _ C i Hi) as (Np & Sp & Sn & Kp).
+    assert (En : i_node j = i_node i).
+    { apply (nodup_key_inj node_key (nodes c)); [apply W | exact D1 | exact Hn |].
+      unfold node_key. rewrite D2, Np, D3, <- E, Sn. reflexivity. }
+    split; [exact En|]. split; [symmetry; exact E|]. split.
+    + intros r Hr. apply K in Hr as (R1 & R2 & R3 & R4). apply (Mc i r Hi R1 R2).
+      * rewrite R3, <- E, Sn. reflexivity.
+      * rewrite <- E in R4. exact R4.
+    + intros k Hk'. destruct (Hk k Hk') as (r & Hr & Hi'). exists r. split; [|exact Hi'].
+      destruct Hi' as [Kk Kc]. destruct (sc_chk _ _ _ C i k Hi Hk') as (Cn & Cs & _).
+      apply K. split; [exact Hr|].
+      unfold chk_key in Kk. injection Kk as K1 K2 K3. unfold chk_core in Kc.
+      assert (c_sid r = c_sid k) by congruence.
+      repeat split.
+      * rewrite K1. apply Kp. exact Hk'.
+      * rewrite K2, Cn, <- E, Sn. reflexivity.
+      * rewrite H, <- E. exact Cs.
+  - intros i Hi. destruct (Min i Hi) as (_ & Hs & _). destruct (sc_peer _ _ _ C i Hi) as (_ & Sp & _).
+    destruct (sc_name _ _ _ C i Hi) as (Nm & _).
+    destruct (stored_complete c p sn view Hv (i_svc i) Hs Sp Nm) as (j & Hj & E). exists j. auto.
+Qed.
